@@ -737,31 +737,31 @@ const STAGE2_PARAMS: &[(f64, u64, u64)] = &[
     (100e3, 240, 512),
     (200e3, 240, 1024),
     (450e3, 510, 1024),
-    (980e3, 510, 2048),
-    (1.9e6, 1050, 2048),
+    (978e3, 510, 2048),
+    (1.89e6, 1050, 2048),
     (4e6, 1050, 4096),
     (8.3e6, 2310, 4096),
-    (18e6, 2310, 8192),
+    (17.8e6, 2310, 8192),
     (33e6, 4620, 8192),
     (71e6, 4620, 16384),
     (133e6, 9240, 16384),
     (285e6, 9240, 32768),
-    (550e6, 19110, 32768),
-    (1.2e9, 19110, 65536),
-    (2.3e9, 39270, 65536),
+    (549e6, 19110, 32768),
+    (1.17e9, 19110, 65536),
+    (2.27e9, 39270, 65536),
     (4.8e9, 39270, 131072),
     (7.9e9, 79170, 131072),
     (18e9, 79170, 262144),
-    (37e9, 159390, 262144),
+    (36.7e9, 159390, 262144),
     (78e9, 159390, 524288),
     (150e9, 330330, 524288), // φ=63360
     (320e9, 330330, 1048576),
-    (640e9, 690690, 1048576), // φ=126720
+    (636e9, 690690, 1048576), // φ=126720
     (1360e9, 690690, 2097152),
     (2500e9, 1381380, 2097152), // φ=253440
     (5400e9, 1381380, 4194304),
-    (10.5e12, 2852850, 4194304), // φ=518400
-    (22.5e12, 2852850, 8388608),
+    (10.4e12, 2852850, 4194304), // φ=518400
+    (22.4e12, 2852850, 8388608),
 ];
 
 #[test]
